@@ -28,19 +28,21 @@ theorem forIn_pure {α σ ρ : Type} (step : α → σ → σ) (body : α → σ
 
 /-! ### add_scaffold: the cumulative-end loop -/
 
+/-- the loop state of `add_scaffold` as the translator packs it (carried variables ordered by type, then name: `idx : List Int`, `end : Int`) -/
+abbrev idxPack (e : Int) (idx : List Int) : List Int × Int := (idx, e)
+
 /-- one pass of `end += row.length; idx.append(end)` -/
-def idxStep (row : Row) (s : Int × List Int) : Int × List Int := (s.1 + row.length, s.2 ++ [s.1 + row.length])
+def idxStep (row : Row) (s : List Int × Int) : List Int × Int := idxPack (s.2 + row.length) (s.1 ++ [s.2 + row.length])
 
 theorem foldl_idxStep (rows : List Row) (e : Int) (idx : List Int) :
-    rows.foldl (fun s x => idxStep x s) (e, idx) = (e + rowsLength rows, idx ++ cumEnds e rows) := by
+    rows.foldl (fun s x => idxStep x s) (idxPack e idx) = idxPack (e + rowsLength rows) (idx ++ cumEnds e rows) := by
   induction rows generalizing e idx with
   | nil => simp [rowsLength, sumInts, cumEnds]
   | cons r rs ih =>
-    rw [List.foldl_cons, show idxStep r (e, idx) = (e + r.length, idx ++ [e + r.length]) from rfl, ih]
+    rw [List.foldl_cons, show idxStep r (idxPack e idx) = idxPack (e + r.length) (idx ++ [e + r.length]) from rfl, ih]
     simp only [cumEnds, rowsLength, List.map_cons, sumInts, List.append_assoc, List.cons_append,
-      List.nil_append]
-    congr 1
-    omega
+      List.nil_append, idxPack]
+    rw [Int.add_assoc]
 
 /-! ### append_scaffold -/
 
@@ -281,18 +283,32 @@ theorem pyGet_natCast_succ {α : Type} (l : List α) (k : Nat) (h : k + 1 < l.le
   have := pyGet_natCast l (k + 1) h
   simpa using this
 
-/-- what one pass of the first loop does to `(abut_count, overlap_count, pairs_with_gaps)` -/
-def qcStep (a b : Fragment) (s : Int × Int × List (Fragment × Fragment × Option Int)) :
-    Int × Int × List (Fragment × Fragment × Option Int) :=
-  (if a.abuts b then s.1 + 1 else s.1,
-   if a.overlaps b then s.2.1 + 1 else s.2.1,
-   if (match a.gapBetween b with | some v => decide (v ≠ 0) | none => false) then s.2.2 ++ [(a, b, a.gapBetween b)] else s.2.2)
+/-- the state of the first loop as the translator packs it (carried variables ordered by type, then by name:
+    `pairs_with_gaps : List …`, `abut_count : Int`, `overlap_count : Int`).  Everything below goes through `QSt.pack` and the three
+    named projections, so a change of the order is repaired here only. -/
+abbrev QSt : Type := List (Fragment × Fragment × Option Int) × Int × Int
+namespace QSt
+abbrev pack (abut over : Int) (pairs : List (Fragment × Fragment × Option Int)) : QSt := (pairs, abut, over)
+abbrev abut (s : QSt) : Int := s.2.1
+abbrev over (s : QSt) : Int := s.2.2
+abbrev pairs (s : QSt) : List (Fragment × Fragment × Option Int) := s.1
+theorem eta (s : QSt) : s = pack s.abut s.over s.pairs := rfl
+@[simp] theorem abut_pack (a o : Int) (p : List (Fragment × Fragment × Option Int)) : (pack a o p).abut = a := rfl
+@[simp] theorem over_pack (a o : Int) (p : List (Fragment × Fragment × Option Int)) : (pack a o p).over = o := rfl
+@[simp] theorem pairs_pack (a o : Int) (p : List (Fragment × Fragment × Option Int)) : (pack a o p).pairs = p := rfl
+end QSt
 
-theorem foldl_qcStep (pairs : List (Fragment × Fragment)) (s : Int × Int × List (Fragment × Fragment × Option Int)) :
+/-- what one pass of the first loop does to `(abut_count, overlap_count, pairs_with_gaps)` -/
+def qcStep (a b : Fragment) (s : QSt) : QSt :=
+  QSt.pack (if a.abuts b then s.abut + 1 else s.abut)
+   (if a.overlaps b then s.over + 1 else s.over)
+   (if (match a.gapBetween b with | some v => decide (v ≠ 0) | none => false) then s.pairs ++ [(a, b, a.gapBetween b)] else s.pairs)
+
+theorem foldl_qcStep (pairs : List (Fragment × Fragment)) (s : QSt) :
     let r := pairs.foldl (fun s p => qcStep p.1 p.2 s) s
-    r.1 = s.1 + ((pairs.filter (fun p => p.1.abuts p.2)).length : Int) ∧
-    r.2.1 = s.2.1 + ((pairs.filter (fun p => p.1.overlaps p.2)).length : Int) ∧
-    r.2.2.length = s.2.2.length +
+    r.abut = s.abut + ((pairs.filter (fun p => p.1.abuts p.2)).length : Int) ∧
+    r.over = s.over + ((pairs.filter (fun p => p.1.overlaps p.2)).length : Int) ∧
+    r.pairs.length = s.pairs.length +
       (pairs.filter (fun p => match p.1.gapBetween p.2 with | some g => g ≠ 0 | none => false)).length := by
   induction pairs generalizing s with
   | nil => simp
@@ -325,12 +341,12 @@ theorem qcPasses_eq (orig : Fragment) (subs : List Fragment) :
       (decide (orig.length = sumInts (subs.map Fragment.length)) && overCount subs == 0 &&
         (abutCount subs : Int) == (subs.length : Int) - 1 && gapCount subs == 0) := rfl
 
-/-- the state after the first loop of `qc_sub_fragments`, started from `(0, 0, [])` -/
+/-- the state after the first loop of `qc_sub_fragments`, started from `abut_count = 0, overlap_count = 0, pairs_with_gaps = []` -/
 theorem qc_loop_counts (subs : List Fragment) :
-    let r := (consPairs (stableSort lexLe subs)).foldl (fun s p => qcStep p.1 p.2 s) (0, 0, [])
-    r.1 = (abutCount subs : Int) ∧ r.2.1 = (overCount subs : Int) ∧ r.2.2.length = gapCount subs := by
-  obtain ⟨h1, h2, h3⟩ := foldl_qcStep (consPairs (stableSort lexLe subs)) (0, 0, [])
-  simp only [Int.zero_add, List.length_nil, Nat.zero_add] at h1 h2 h3
+    let r := (consPairs (stableSort lexLe subs)).foldl (fun s p => qcStep p.1 p.2 s) (QSt.pack 0 0 [])
+    r.abut = (abutCount subs : Int) ∧ r.over = (overCount subs : Int) ∧ r.pairs.length = gapCount subs := by
+  obtain ⟨h1, h2, h3⟩ := foldl_qcStep (consPairs (stableSort lexLe subs)) (QSt.pack 0 0 [])
+  simp only [QSt.abut_pack, QSt.over_pack, QSt.pairs_pack, Int.zero_add, List.length_nil, Nat.zero_add] at h1 h2 h3
   exact ⟨h1, h2, h3⟩
 
 /-- the second loop (`for … in pairs_with_gaps: msg += …`) -/
